@@ -222,6 +222,20 @@ def initStep (st : ISt) (t : List String) (implObs : String) : Option (ISt × St
       some ({ st with attempts := setS st.attempts att pc }, if ok then implObs else "hash-mismatch", "-")
     | _, _, _ => some (st, "bad-op", "-")
   | "iexpect" :: _ => some (st, "ok", "-")
+  | ["isign", ki, salt, parts] =>
+    -- a handshake datagram with arbitrary TLV content, genuinely signed by the holder of key `ki`: the signature bytes are observed (the model
+    -- cannot sign), the layout is checked (marker, salt, salted key hash of that key, the given parts, signature length, signature) and the
+    -- signature is registered with the ideal functionality: from now on it verifies under that key, for exactly these bytes
+    match ki.toNat?.bind (fun i => st.keys[i]?), Bytes.ofHex salt, (if parts = "-" then some [] else Bytes.ofHex parts),
+          (implObs.splitOn "=")[1]?.bind Bytes.ofHex with
+    | some key, some salt, some parts, some msg =>
+      let region := salt ++ st.env.keyHash key salt ++ parts
+      let sig := (msg.drop (1 + region.length + 1))
+      let okLayout := msg.take (1 + region.length) = 255 :: region && msg[1 + region.length]? = some sig.length
+      if !okLayout then some (st, "layout-mismatch", "-") else
+      let st1 := { st with msgs := st.msgs ++ [msg], senders := st.senders ++ [s!"signer{ki}"], sigLog := (key, region, sig) :: st.sigLog }
+      some (st1, implObs, "-")
+    | _, _, _, _ => some (st, "bad-op", "-")
   | op :: rest =>
     if op ∉ ["iinit", "ideliver", "itick", "isend"] then none else
     let att := if op = "ideliver" then rest.getD 1 "" else rest.getD 0 ""
